@@ -54,7 +54,10 @@ func genBody(parent *html.Node, budget *int, depth int) {
 		case cElem:
 			ti := nd.Choice(len(tags))
 			e := elem(tags[ti])
-			switch nd.Choice(3) {
+			switch nd.Choice(4) {
+			case 3:
+				// distinct keys whose local names coincide once prefixes are stripped
+				e.Attr = append(e.Attr, html.Attribute{Key: "href", Val: symText()}, html.Attribute{Key: "xlink:href", Val: symText()})
 			case 1:
 				// quick tier: the key is paired with the tag; thorough: every key
 				ki := ti
